@@ -25,7 +25,8 @@ LEVEL = "exploration"
 RULE = ("a case is a history of 2-6 calls on one Parallel object (managed by `with` or not), each call one of "
         "ok / task-failure (1-2 failing positions anywhere) / failing iterator step / never-completing batch with timeout, "
         "over the C01 configuration space, with the scripted backend delivering completions in seeded order from 1-3 threads "
-        "including late completions of aborted batches; plus the same histories on threading, loky and multiprocessing; "
+        "including late completions of aborted batches; plus the same histories on threading, loky and multiprocessing; plus 'clogged' failures on threading / loky "
+        "(one task raises Boom / a BaseException-only class / SystemExit / KeyboardInterrupt while all its siblings stay busy for a minute, then the same object is called again, 1-3 cycles, with and without a with block); "
         "distinct_nontrivial counts distinct (configuration, history of kinds and failing positions, completion order) "
         "with at least one failing call followed by another call")
 ASSUMPTIONS = [
@@ -37,9 +38,9 @@ ASSUMPTIONS = [
 ]
 SHARDS = {"quick": 12, "thorough": 14}
 FLOORS = {"quick": {"scripted_calls": 1500, "calls_after_a_failed_call": 500, "late_completions_delivered": 100,
-                    "iterator_failures": 150, "timeouts_expected": 60, "real_backend_calls": 80},
+                    "iterator_failures": 150, "timeouts_expected": 60, "real_backend_calls": 80, "clogged_failure_cycles": 16, "clog_exception_kinds": 12},
           "thorough": {"scripted_calls": 30000, "calls_after_a_failed_call": 10000, "late_completions_delivered": 2000,
-                       "iterator_failures": 3000, "timeouts_expected": 1200, "real_backend_calls": 1200}}
+                       "iterator_failures": 3000, "timeouts_expected": 1200, "real_backend_calls": 1200, "clogged_failure_cycles": 200, "clog_exception_kinds": 16}}
 
 TIMEOUT_TYPES = (multiprocessing.TimeoutError, TimeoutError, CfTimeoutError)
 _S = {}
@@ -59,6 +60,8 @@ def cases(tier, seed):
     m = 36 if tier == "quick" else 360
     for i in range(m):
         yield dict(kind="real", i=i)
+    for i in range(16 if tier == "quick" else 160):
+        yield dict(kind="clog", i=i)
 
 
 def gen_history(rng, with_timeout):
@@ -86,9 +89,65 @@ class RaisingIterable:
         raise self.exc
 
 
+def run_clog(case, ctx):
+    """real backend: one task fails (with an Exception or a BaseException-only class) while every sibling stays busy for
+    a long time; the same object is then called again - the call must not be starved by the leftovers"""
+    rng = harness.rng_for(ctx.seed, ID, "clog", case["i"])
+    i = case["i"]
+    backend = ["threading", "loky"][i % 2]
+    exc = ["Boom", "BoomBase", "SystemExit", "KeyboardInterrupt"][(i // 2) % 4]
+    managed = bool((i // 8) % 2) if i < 16 else rng.random() < 0.6
+    J = rng.choice([2, 3])
+    cfg = dict(backend=backend, exc=exc, managed=managed, J=J, b=rng.choice([1, 1, 2]), pd=rng.choice(["2*n_jobs", "all", "n_jobs"]),
+               ra=rng.choice(["list", "generator"]), N=rng.choice([J + 1, 2 * J, 3 * J]), N2=rng.choice([1, J, 2 * J + 1]), fail_at=0,
+               stuck_s=60, cycles=rng.choice([1, 2, 3]))
+    cfg["fail_at"] = rng.randrange(min(cfg["N"], J))     # among the first tasks, so that it starts although the others never finish
+    d = harness.mkscratch("vjl-c04c-")
+    try:
+        cf, of = os.path.join(d, "cfg.json"), os.path.join(d, "out.json")
+        with open(cf, "w") as f:
+            json.dump(cfg, f)
+        r = harness.run_py([os.path.join(harness.VERIF, "checks", "c04_clog.py"), cf, of], timeout=75, result_file=of, dump_stacks_at=(40, 10))
+        ctx.evaluated()
+        ctx.count("clogged_failure_cycles", cfg["cycles"])
+        ctx.add("clog_exception_kinds", f"{backend}:{exc}:{'with' if managed else 'plain'}")
+        if r["result"] is None:
+            prog = []
+            try:
+                prog = [json.loads(x) for x in open(of + ".progress")]
+            except OSError:
+                pass
+            open_call = prog[-1] if prog and prog[-1]["ev"] == "call_start" else None
+            if r["timed_out"] and open_call is not None:
+                ctx.violation(f"nontermination:{'next-call-after-failure' if open_call['kind'] == 'ok' else 'failing-call'}",
+                              f"{backend} ({'with block' if managed else 'plain'}): after a task raised {exc} while its siblings were busy, the "
+                              f"{'next call on the same object' if open_call['kind'] == 'ok' else 'failing call'} had not returned after 75 s ({len(prog) // 2} calls completed before)",
+                              dict(cfg=cfg, progress=prog[-4:], stack=(r["stacks"] or [""])[-1][-1500:]))
+            else:
+                ctx.inconclusive("clog-child-failed", dict(cfg=cfg, rc=r["rc"], err=r["err"][-400:]))
+            return
+        for k, o in enumerate(r["result"]["calls"]):
+            ctx.count("real_backend_calls")
+            tag = f"c{k // 2}"
+            desc = dict(cfg=cfg, call=k, outcome=o)
+            if k % 2 == 0:
+                if not (o.get("exc_type") == exc and o.get("exc_args") == [tag, cfg["fail_at"]]):
+                    ctx.violation("task-failure:" + ("returned" if "out" in o else "wrong-exception"),
+                                  f"{backend} call whose task {cfg['fail_at']} raises {exc}({tag!r}, {cfg['fail_at']}) gave {str(o)[:200]}", desc)
+            else:
+                ctx.count("calls_after_a_failed_call")
+                if o.get("out") != [[tag + "ok", j] for j in range(cfg["N2"])]:
+                    ctx.violation("ok-call:wrong-result", f"{backend} call after a clogged failure gave {str(o)[:200]}", desc)
+        ctx.sig(("clog", backend, exc, managed, J, cfg["N"], cfg["pd"], cfg["ra"], cfg["cycles"]))
+    finally:
+        shutil.rmtree(d, ignore_errors=True)
+
+
 def run_case(case, ctx):
     if case["kind"] == "real":
         return run_real(case, ctx)
+    if case["kind"] == "clog":
+        return run_clog(case, ctx)
     run_scripted(case["i"], ctx)
 
 
